@@ -250,7 +250,9 @@ Definition from_mappings (input : list pair) : Outcome :=
 Definition cmap4_compute_length (t : T4) : option Z :=
   chk_u 16 (16 + Z.of_nat (length (endc t)) * 8 + Z.of_nat (length (gida t)) * 2).
 
-Inductive Subtable := F4 (t : T4) | F12 (g : list (Z * Z * Z)) | F14 | FOther.
+(* a decoded format-14 selector record: (var_selector, default ranges (start, additional_count), non-default (unicode, gid)) *)
+Definition Sel := (Z * option (list (Z * Z)) * option (list (Z * Z)))%type.
+Inductive Subtable := F4 (t : T4) | F12 (g : list (Z * Z * Z)) | F14 (sels : list Sel) | FOther.
 (* encoding records in the order from_mappings emits them: (platform id, encoding id, subtable) *)
 Definition records_of (f4 : option T4) (f12 : option (list (Z * Z * Z))) : list (Z * Z * Subtable) :=
   let r4 p e := match f4 with Some t => [(p, e, F4 t)] | None => [] end in
@@ -514,7 +516,6 @@ End BSearch.
 Definition bfind {A} (cmp : A -> comparison) (l : list A) : option A :=
   bsearch cmp (S (length l)) l 0 (length l).
 
-Definition Sel := (Z * option (list (Z * Z)) * option (list (Z * Z)))%type.
 Definition cmap14_map_variant (sels : list Sel) (c sel : Z) : option (option Z) :=
   do rec <- bfind (fun r : Sel => Z.compare (fst (fst r)) sel) sels ;;
   let '(_, dflt, nondflt) := rec in
@@ -561,6 +562,27 @@ Definition cmap14_spec (sels : list Sel) (c sel : Z) : option (option Z) :=
            | Some maps => match assoc c maps with Some g => Some (Some g) | None => None end
            end
   end.
+
+(* MappingSelection::new, variant part: walking the records in reverse, the first (Unicode, 5) record whose subtable is format 14 *)
+Fixpoint variant_rev (recs_rev : list (Z * Z * Subtable)) : option (list Sel) :=
+  match recs_rev with
+  | [] => None
+  | (p, e, st) :: tl =>
+      match st with
+      | F14 sels => if (p =? 0) && (e =? 5) then Some sels else variant_rev tl
+      | _ => variant_rev tl
+      end
+  end.
+Definition charmap_variant (records : list (Z * Z * Subtable)) : option (list Sel) := variant_rev (rev records).
+(* Charmap::map_variant / has_map / is_symbol / has_variant_map *)
+Definition charmap_map_variant (records : list (Z * Z * Subtable)) (c sel : Z) : option (option Z) :=
+  match charmap_variant records with Some sels => cmap14_map_variant sels c sel | None => None end.
+Definition charmap_has_map (records : list (Z * Z * Subtable)) : bool :=
+  match charmap_select records with (_, Some _) => true | _ => false end.
+Definition charmap_is_symbol (records : list (Z * Z * Subtable)) : bool :=
+  match charmap_select records with (k, Some _) => k =? 3 | _ => false end.
+Definition charmap_has_variant_map (records : list (Z * Z * Subtable)) : bool :=
+  match charmap_variant records with Some _ => true | None => false end.
 
 (* boolean well-formedness of a selector table (reflected by Var14.wf14b_sound) *)
 Fixpoint isortedb {A} (lo hi : A -> Z) (b : Z) (l : list A) : bool :=
@@ -615,6 +637,10 @@ Inductive Case :=
 | CBuildGen (pieces : list (nat * Z * Z * Z * Z)) (panic_in_from_mappings : bool)   (* a build that panicked *)
 | CRead4 (t : T4) (lookups : list (Z * option Z)) (iter : list pair)
 | CRead12 (g : list (Z * Z * Z)) (lookups : list (Z * option Z)) (limits : option (Z * Z)) (iter : list pair)
+(* a hand-built list of encoding records (any order, duplicates, unsupported formats): every Charmap observation,
+   taken through Charmap::new and through MappingIndex::new(..).charmap(..) (the harness requires both to agree) *)
+| CSelect (records : list (Z * Z * Subtable)) (num_glyphs : Z) (lookups : list (Z * option Z)) (mappings : list pair)
+          (has_map is_symbol has_variant : bool) (var_lookups : list (Z * Z * option (option Z)))
 | CVar14 (sels : list Sel) (lookups : list (Z * Z * option (option Z))) (iter : list (Z * Z * option Z))
 | CVar14wf (sels : list Sel) (lookups : list (Z * Z * option (option Z))) (iter : list (Z * Z * option Z)).    (* as CVar14, and the table must satisfy wf14b *)
 
@@ -668,6 +694,12 @@ Definition check_case (c : Case) : bool :=
       && forallb (fun p => match cmap4_map_chk t (fst p) with Some r => oz_eqb r (snd p) | None => false end) lookups
       && match cmap4_iter_chk t with Some l => plist_eqb l iter | None => false end
   | CRead12 g lookups limits iter => lookups_ok (cmap12_map g) lookups && plist_eqb (cmap12_iter limits g) iter
+  | CSelect records ng lookups mappings hm sy hv vl =>
+      lookups_ok (charmap_map records) lookups && plist_eqb (charmap_mappings records ng) mappings
+      && Bool.eqb (charmap_has_map records) hm && Bool.eqb (charmap_is_symbol records) sy
+      && Bool.eqb (charmap_has_variant_map records) hv
+      && forallb (fun q => match charmap_map_variant records (fst (fst q)) (snd (fst q)), snd q with
+                           | None, None => true | Some a, Some b => oz_eqb a b | _, _ => false end) vl
   | CVar14 sels lookups iter => var14_ok sels lookups iter
   | CVar14wf sels lookups iter => wf14b sels && dn14b sels && var14_ok sels lookups iter
   end.
